@@ -571,7 +571,21 @@ func GenScript(t *rapid.T, prop, profile string, o GenOpts) *Script {
 					allPending = false
 				}
 			}
-			if !allPending || !chance(t, "twin", 60) {
+			// a partially running original (some pods running, the rest pending, nothing terminating) gets a YOUNGER, fully
+			// pending twin of the same priority: the older workload, if it is below a minimum, must still go first
+			partial, hasRunning, hasPending := true, false, false
+			for _, p := range w.Pods {
+				switch p.State {
+				case "running":
+					hasRunning = true
+				case "pending":
+					hasPending = true
+				default:
+					partial = false
+				}
+			}
+			partial = partial && hasRunning && hasPending
+			if !(allPending || partial) || !chance(t, "twin", 60) {
 				continue
 			}
 			tw := w
@@ -579,9 +593,16 @@ func GenScript(t *rapid.T, prop, profile string, o GenOpts) *Script {
 			tw.Pods = nil
 			for j, p := range w.Pods {
 				p.Name = fmt.Sprintf("%s-p%d", tw.Name, j)
+				p.State, p.Node, p.GPUGroups = "pending", "", nil
 				tw.Pods = append(tw.Pods, p)
 			}
 			tw.SubGroups = append([]SubGroupSpec(nil), w.SubGroups...)
+			if partial {
+				tw.LastStartAgo = nil
+				tw.AgeSec = int64(rapid.IntRange(1, int(max(2, w.AgeSec))-1).Draw(t, "twinyounger"))
+				s.World.Workloads = append(s.World.Workloads, tw)
+				continue
+			}
 			if chance(t, "twinprio", 50) && len(s.World.PriorityClasses) > 0 {
 				// same preemptibility class, different priority
 				if w.Preemptibility == "" {
